@@ -24,9 +24,9 @@ INTERRUPTIBLE = ("append_circuit", "add", "iadd", "iadd_gate", "repeat", "copy",
 
 ONE_Q = ["I", "X", "Y", "Z", "H", "S", "T", "P"]
 TWO_Q = ["CX", "CZ", "CP", "SWAP"]
-PARAM = {"P", "CP"}
-MULTI = ("MCX", "MCZ", "MCtrlX", "MCtrlH", "MCtrlY")  # MCX is its own class; the others are MCtrl over a base gate
-ANGLES = [math.pi, math.pi / 2, math.pi / 4, -math.pi / 2, 0.3, 2 * math.pi / 8]
+PARAM = {"P", "CP", "MCtrlP"}
+MULTI = ("MCX", "MCZ", "MCtrlX", "MCtrlH", "MCtrlY", "MCtrlP")  # MCX is its own class; the others are MCtrl over a base gate
+ANGLES = [math.pi, math.pi / 2, math.pi / 4, -math.pi / 2, 0.3, 2 * math.pi / 8, 0.12345, -0.3, 7.0, 1e-3, 3.14159, -math.pi / 4]
 
 # ------------------------------------------------------------------ matrices (model and observer share them)
 
@@ -80,6 +80,8 @@ def spec_matrix(spec):
         return controlled(base_matrix("Z", None), len(spec["w"]) - 1)
     if g in ("MCtrlX", "MCtrlH", "MCtrlY"):
         return controlled(base_matrix(g[-1], None), len(spec["w"]) - 1)
+    if g == "MCtrlP":
+        return controlled(base_matrix("P", p), len(spec["w"]) - 1)
     if g == "CP":
         return controlled(base_matrix("P", p), 1)
     return base_matrix(g, p)
@@ -374,6 +376,8 @@ class Gen:
         specs = [rand_spec(r, a["n"], self.gset)]
         if r.random() < 0.25:
             specs[0]["by_name"] = True  # address the qubits by their current names instead of indices
+            if r.random() < 0.3:
+                specs[0]["as_symbol"] = True
         if r.random() < 0.4 and specs[0]["g"] != "BARRIER":
             # the same gate again (a cancelling or non-cancelling identical adjacent pair),
             # optionally separated by / preceded by a barrier
@@ -499,6 +503,11 @@ def build(qc, spec, names=None):
         # remembers for these qubits (taken from the circuit when it entered the pool, updated only by
         # explicit naming calls): a composition operator that silently rebinds a name sends the gate elsewhere
         w = [name_of(names, i) for i in w]
+        if spec.get("as_symbol"):
+            # the third way of addressing a qubit: a sympy Symbol of its name (what the compiler itself uses)
+            from sympy import Symbol
+
+            w = [Symbol(x) if isinstance(x, str) else x for x in w]
     if g == "BARRIER":
         qc.barrier()
     elif g == "H":
@@ -533,6 +542,8 @@ def build(qc, spec, names=None):
         qc.mctrl(gates.Z(), list(w[:-1]), w[-1])
     elif g in ("MCtrlX", "MCtrlH", "MCtrlY"):
         qc.mctrl(getattr(gates, g[-1])(), list(w[:-1]), w[-1])
+    elif g == "MCtrlP":
+        qc.mctrl(gates.P(), list(w[:-1]), w[-1], p)
     else:
         raise RuntimeError("unknown gate spec " + g)
 
@@ -545,7 +556,7 @@ def gate_object(spec):
         return gates.MCX(len(spec["w"]) - 1)
     if g == "MCZ":
         return gates.MCtrl(gates.Z(), len(spec["w"]) - 1)
-    if g in ("MCtrlX", "MCtrlH", "MCtrlY"):
+    if g in ("MCtrlX", "MCtrlH", "MCtrlY", "MCtrlP"):
         return gates.MCtrl(getattr(gates, g[-1])(), len(spec["w"]) - 1)
     if g == "SWAP":
         return gates.Swap()
